@@ -19,8 +19,25 @@ class ABT:
                 raise Unrecognised('AtomicBaseTime: expected exactly one %s field, found %d' % (what, len(m)))
             return m[0]['n']
         self.lock = one(lambda t: 'Mutex<' in t, 'Mutex')
-        self.seq = one(lambda t: t.startswith('std::sync::atomic::Atomic') and 'u64' in t, 'AtomicU64 sequence')
         self.slots = one(lambda t: t.startswith('[') and 'BaseTime' in t, 'slot array')
+        cands = [f['n'] for f in fields if f['ty'].startswith('std::sync::atomic::Atomic') and 'u64' in f['ty']]
+        if len(cands) > 1:
+            # the sequence word is the atomic whose loaded value selects the slot
+            used = set()
+            for f in prog.fns.values():
+                if (self.adt['name'].rsplit('::', 1)[0] + '::') not in f.name:
+                    continue
+                for cs in f.calls():
+                    for a in cs.args():
+                        for n in a.walk():
+                            if n.kind == 'proj' and n.op == 'index' and is_param_field(n.a, self.slots) and n.b is not None:
+                                for l in n.b.walk():
+                                    if l.kind == 'call' and l.op.endswith('::load') and l.args and l.args[0].strip().kind == 'proj':
+                                        used.add(l.args[0].strip().info.get('n'))
+            cands = [c for c in cands if c in used]
+        if len(cands) != 1:
+            raise Unrecognised('AtomicBaseTime: cannot identify the sequence word (atomic u64 fields selecting a slot: %s)' % cands)
+        self.seq = cands[0]
         sf = self.slot_adt['variants'][0]['fields']
         if len(sf) != 2 or not all('Atomic' in f['ty'] for f in sf):
             raise Unrecognised('BaseTime is no longer a pair of atomics')
